@@ -137,7 +137,7 @@ Definition strcpyfldout_s (c : cfg) (d dmax s slen destbos : Z) : prog Z :=
 (* ---- memccpy_s(dest, dmax, src, c, n, destbos, srcbos) (after the fix: the found character is kept) ---- *)
 Fixpoint ccpy_loop (c : cfg) (ch : Z) (od odmax : Z) (rem : nat) (n : Z) (d s : Z) : prog Z :=
   match rem with
-  | O => handle_error c 1 od odmax ESNOSPC ;;; Ret ESNOSPC       (* handle_error: the str handler, on purpose as in the source *)
+  | O => handle_mem_error od odmax ESNOSPC ;;; Ret ESNOSPC
   | S rem' =>
       if n =? 0 then Store 1 d 0 (Ret EOK)                        (* truncation *)
       else Load 1 s (fun x => Store 1 d x (
